@@ -13,14 +13,14 @@ DECIDING = ["O1:diamond-symmetric", "O1:diamond-zero-on-equal", "O1:diamond-choi
 RULE = ("pairs of qubit and qutrit maps given by Choi matrices: unitary channels, mixtures of unitaries, Haar-Stinespring CPTP maps, differences of channels, general "
         "Hermiticity-preserving maps, replacement channels; signature (monitor, d, class of the pair); non-trivial when the pair is not identical")
 ASSUMPTIONS = [
-    "diamond_distance is the cb trace norm of the difference (range [0, 2]); picos/cvxopt, tolerance 2e-5 relative; channel_fidelity uses SCS with eps 1e-7, tolerance 5e-4",
+    "diamond_distance is the cb trace norm of the difference (range [0, 2]); picos/cvxopt, tolerance 2e-5 relative; channel_fidelity uses SCS with eps 1e-7, tolerance 2e-3 (square-root amplification of the solver accuracy)",
     "unitary closed form: delta = cos(Theta/2) with Theta the length of the shortest arc containing all eigenvalues of U^dagger V (0 if Theta >= pi), computed without a solver",
     "lower bounds on the diamond norm from explicit inputs |psi> = (A x 1)|Omega>: |(A x 1) J (A^dagger x 1)|_1, NumPy only",
     "channel_fidelity for qutrits costs 15-20 s per call: one instance in the quick tier; d = 4, 5 only in the thorough tier",
     "the return statement that produced each completely_bounded_trace_norm value is recorded (channel shortcut / CP shortcut / SDP)",
 ]
 TOLA = 2e-5
-TOLF = 5e-4
+TOLF = 2e-3  # root-fidelity SDPs amplify the solver accuracy eps = 1e-7 to about sqrt(eps) = 3e-4; observed up to 5.8e-4
 SOLVER_TIME_LIMIT = 400
 CASE_TIMEOUT = {"quick": 900, "thorough": 2400}
 
